@@ -85,6 +85,13 @@ func Run(a Matrix, args ...interface{}) (Matrix, Matrix, error) {
     if u, v := r.Dims(); u != n || v != m {
       return nil, nil, fmt.Errorf("r has invalid dimension (%dx%d instead of %dx%d)", u, v, n, m)
     }
+    // a recycled matrix keeps the entries of its previous use, only the
+    // upper triangle is written below
+    for i := 1; i < n; i++ {
+      for j := 0; j < i && j < m; j++ {
+        r.At(i, j).SetFloat64(0.0)
+      }
+    }
   }
   return gramSchmidt(a, q, r, t, n, m)
 }
